@@ -85,6 +85,15 @@ pub fn build_plan(property: &str, tier: &str, seed: u64, ctx: &Arc<ExecCtx>) -> 
             plan.rule = "directed: every entry point as the first call of a session and right after set_rules_dir; every entry point right after each class of error; every preference name x 12 value classes followed by the calls that consume the value (under no engine, SSML, SAPI5); plus seeded random histories of 5-120 calls over all 16 entry points with valid, invalid, wrong-kind, empty, stale and out-of-range arguments (20% of the runs also break rule files mid-history). Oracles: every call returns Ok or Err (panics caught, aborts/hangs by the supervisor); recovery: a valid expression set next yields byte for byte what a fresh session with the same preference values yields; a failed set_mathml leaves the previous outputs unchanged. non-trivial = at least one call returned an error; distinct = distinct trace hashes".into();
             plan.required_probes = vec!["api_error_seen", "recovered_like_fresh_session", "failed_set_mathml_checked"].into_iter().map(String::from).collect();
         }
+        "C12" => {
+            let names = props::common::pref_names(&ctx.base);
+            for t in props::c12::directed(&names) {
+                plan.units.push(Unit::Fixed(Box::new(t)));
+            }
+            seeded(&mut plan, "c12-random", if quick { 600 } else { 60_000 }, 12);
+            plan.rule = "directed: every preference name (prefs.yaml + API defaults + two unknown names) x 12 value classes interleaved with set_mathml; API-set values across touch / rewrite / edit of the system and user prefs.yaml (with and without a user configuration directory) and across set_rules_dir; Language/LanguageAuto flows; rejected-then-accepted sequences. Plus seeded random histories of set_preference/get_preference over all names x value classes interleaved with set_mathml, getters, navigation and (35% of runs) preference-file events. After every step the full preference snapshot is compared with the reference model (read-back normalisations, only documented derivations may change), rejected sets must leave all preferences and all outputs unchanged, unknown names and wrong-kind values must be rejected, braille-/speech-/navigation-only preferences must leave the other outputs byte-identical. non-trivial = at least one set was accepted and one rejected; distinct = distinct trace hashes".into();
+            plan.required_probes = vec!["read_back_ok", "set_rejected", "frame_held", "rejected_set_left_outputs", "persisted_across_set_mathml", "prefs_file_event"].into_iter().map(String::from).collect();
+        }
         "C11" => {
             for t in props::c11::directed() {
                 plan.units.push(Unit::Fixed(Box::new(t)));
@@ -104,6 +113,7 @@ pub fn unit_trace(plan: &Plan, i: usize, ctx: &Arc<ExecCtx>) -> Trace {
         Unit::Seeded { gen, seed } => match gen.as_str() {
             "c14-random" => props::c14::random_trace(*seed, ctx, &plan.c14_reachable),
             "c11-random" => props::c11::random_trace(*seed),
+            "c12-random" => props::c12::random_trace(*seed, &props::common::pref_names(&ctx.base)),
             "c08-random" => props::c08::random_trace(*seed, &props::common::pref_names(&ctx.base), plan.c14_reachable.get("en").map(|v| v.as_slice()).unwrap_or(&[])),
             _ => Trace::new(&plan.property, "none"),
         },
@@ -123,6 +133,7 @@ pub fn nontrivial(property: &str, out: &RunOutput) -> bool {
     match property {
         "C14" => out.stats.probes.get("call_consumed_fault").copied().unwrap_or(0) > 0 || out.stats.faults_consumed.values().sum::<u64>() > 0,
         "C08" => out.stats.api_err > 0,
+        "C12" => out.stats.probes.get("read_back_ok").copied().unwrap_or(0) > 0 && out.stats.probes.get("set_rejected").copied().unwrap_or(0) > 0,
         "C11" => out.stats.probes.get("position_changed").copied().unwrap_or(0) > 0,
         _ => out.stats.api_calls > 3,
     }
